@@ -1,5 +1,4 @@
-//go:build verif
-
+//go:build verif && verif_c03
 // Verification hooks for property C03 (cell storage is a last-writer-wins map
 // over the grid). Compiled only with `-tags verif`; adds code, changes none.
 
